@@ -365,10 +365,60 @@ func TestVF_C11Send(t *testing.T) {
 		if rpcIsEmpty(&RPC{RPC: *r}) {
 			continue // callers never hand sendRPC an RPC that carries nothing
 		}
+		// pending control retries (PRUNEs of topics that are not joined are never stale) and pending gossip for the peer
+		// are piggybacked by sendRPC BEFORE it decides whether the RPC fits: what goes to the wire is the merged RPC
+		var pendCtl *pb.ControlMessage
+		var pendIhave []*pb.ControlIHave
+		merged := r
+		if rng.Intn(2) == 0 {
+			mc := *r
+			merged = &mc
+			if r.Control != nil {
+				cc := *r.Control
+				cc.Prune = append([]*pb.ControlPrune{}, cc.Prune...)
+				merged.Control = &cc
+			} else {
+				merged.Control = &pb.ControlMessage{}
+			}
+			if rng.Intn(3) != 0 {
+				pendCtl = &pb.ControlMessage{}
+				for k := 1 + rng.Intn(scale); k > 0; k-- {
+					tn := fmt.Sprintf("retry-%d-%s", k, strings.Repeat("x", rng.Intn(scale)))
+					bo := uint64(rng.Intn(100))
+					pendCtl.Prune = append(pendCtl.Prune, &pb.ControlPrune{TopicID: &tn, Backoff: &bo})
+				}
+				merged.Control.Prune = append(merged.Control.Prune, pendCtl.Prune...)
+			}
+			if rng.Intn(3) != 0 {
+				for k := 1 + rng.Intn(3); k > 0; k-- {
+					tn := fmt.Sprintf("g%d", k)
+					var ids []string
+					for j := 1 + rng.Intn(scale); j > 0; j-- {
+						ids = append(ids, fmt.Sprintf("id-%d-%d", k, rng.Intn(1000000)))
+					}
+					pendIhave = append(pendIhave, &pb.ControlIHave{TopicID: &tn, MessageIDs: ids})
+				}
+				// pending gossip REPLACES the IHAVEs of the RPC in hand (piggybackGossip); the callers never have both
+				r.Control = vfWithoutIhave(r.Control)
+				merged.Control.Ihave = pendIhave
+			}
+			if merged.Control != nil && merged.Control.Size() == 0 && r.Control == nil {
+				merged.Control = nil
+			}
+		}
+		if rpcIsEmpty(&RPC{RPC: *r}) {
+			continue
+		}
 		sz := (&RPC{RPC: *r}).Size()
-		max := 1 + rng.Intn(sz+4)
-		if rng.Intn(5) == 0 {
-			max = sz + rng.Intn(3) - 1
+		msz := (&RPC{RPC: *merged}).Size()
+		max := 1 + rng.Intn(msz+4)
+		switch rng.Intn(5) {
+		case 0:
+			max = msz + rng.Intn(3) - 1
+		case 1:
+			if msz > sz { // the RPC in hand fits, the merged one does not
+				max = sz + 1 + rng.Intn(msz-sz)
+			}
 		}
 		if max < 1 {
 			max = 1
@@ -388,12 +438,18 @@ func TestVF_C11Send(t *testing.T) {
 			}
 			gs := ps.rt.(*GossipSubRouter)
 			p := vfPeerIDs(1)[0]
-			orig := w.rpc(r)
+			orig := w.rpc(merged)
 			var queued []string
 			qlens := []int{}
 			vfEval(ps, func() {
 				q := newRpcQueue(10000)
 				ps.peers[p] = q
+				if pendCtl != nil {
+					gs.control[p] = pendCtl
+				}
+				if pendIhave != nil {
+					gs.gossip[p] = pendIhave
+				}
 				gs.sendRPC(p, &RPC{RPC: *r}, false)
 				for q.queue.Len() > 0 {
 					cctx, ccancel := context.WithCancel(ctx)
@@ -412,12 +468,24 @@ func TestVF_C11Send(t *testing.T) {
 				ndrop++
 			}
 			lit = fmt.Sprintf("{| s_rpc := %s;\n   s_max := %d%%N;\n   s_queued := [%s];\n   s_dropped := [%s] |}", orig, max, strings.Join(queued, ";\n     "), strings.Join(dropped, ";\n     "))
-			rec = map[string]any{"rpc": orig, "max": max, "size": sz, "queued_sizes": qlens, "dropped": len(dropped)}
+ 			rec = map[string]any{"rpc": orig, "max": max, "size": msz, "size_before_piggybacking": sz, "pending_control": pendCtl != nil, "pending_gossip": pendIhave != nil, "queued_sizes": qlens, "dropped": len(dropped)}
 			cancel()
 		})
 		cs.add(lit, rec, len(rec["queued_sizes"].([]int)) > 1)
 	}
 	cs.extra["cases_with_a_drop"] = ndrop
-	cs.flush("gossipsub sendRPC on a real router with a fake peer queue and a RawTracer recording DropRPC; same RPC generator as for split; max message size from 1 to beyond the RPC's size. " +
+	cs.flush("gossipsub sendRPC on a real router with a fake peer queue and a RawTracer recording DropRPC; same RPC generator as for split, in half of the cases with pending PRUNE retries and / or pending IHAVE gossip for the peer that sendRPC piggybacks first (limits between the size before and after piggybacking included); max message size from 1 to beyond the RPC's size. " +
 		"non-trivial = more than one RPC queued; distinct = hash of RPC+max+queued+dropped")
+}
+
+func vfWithoutIhave(c *pb.ControlMessage) *pb.ControlMessage {
+	if c == nil {
+		return nil
+	}
+	x := *c
+	x.Ihave = nil
+	if x.Size() == 0 {
+		return nil
+	}
+	return &x
 }
